@@ -269,7 +269,8 @@ Definition process_record (lease : bool) (e : ep) (r : rec) : ep * bool * bool *
         let '(e1, retr) := push e (m, ht, fo, fl, tl, r_ep r) in
         let e2 := if 2 <=? r_ep r then set_toack e1 (fadd (m, fo, fl) (e_toack e1)) else e1 in
         (e2, true, retr, None)
-    | Ack fs => (e, false, false, Some fs)
+    | Ack fs => if N.eqb (r_ep r) 0 then (e, false, false, None)   (* an unprotected ACK is discarded *)
+                else (e, false, false, Some fs)
     end
   else if queueable e (r_ep r) then (enqueue lease e r, false, false, None)
   else (e, false, false, None).
@@ -512,8 +513,8 @@ Record sys := {
   s_c : ep; s_s : ep;
   s_cout : list (N * dgram);     (* everything the client emitted, in order, with the time *)
   s_sout : list (N * dgram);
-  s_cseen : list nat;            (* client datagrams (by index) already delivered to the server *)
-  s_sseen : list nat
+  s_cseen : list N;            (* client datagrams (by index) already delivered to the server *)
+  s_sseen : list N
 }.
 
 Definition stamp (t : N) (ds : list dgram) : list (N * dgram) := map (fun d => (t, d)) ds.
@@ -555,15 +556,15 @@ Fixpoint advance (fuel : nat) (c : cfg) (s : sys) (T : N) : sys :=
 
 (* at time T the network delivers the k-th datagram emitted by the client (to the server) or by
    the server (to the client); a second delivery of the same datagram is inert *)
-Inductive move := Deliver (from_client : bool) (k : nat) (T : N).
+Inductive move := Deliver (from_client : bool) (k : N) (T : N).
 
-Definition nmem (k : nat) (l : list nat) : bool := existsb (Nat.eqb k) l.
+Definition nmem (k : N) (l : list N) : bool := existsb (N.eqb k) l.
 
 Definition do_move (c : cfg) (s0 : sys) (m : move) : option sys :=
   let '(Deliver fc k T) := m in
   let s := advance 4096 c s0 T in
   if fc then
-    match nth_error (s_cout s) k with
+    match nth_error (s_cout s) (N.to_nat k) with
     | None => None
     | Some (_, d) =>
         if nmem k (s_cseen s) then Some s else
@@ -572,7 +573,7 @@ Definition do_move (c : cfg) (s0 : sys) (m : move) : option sys :=
                 s_cseen := k :: s_cseen s; s_sseen := s_sseen s |}
     end
   else
-    match nth_error (s_sout s) k with
+    match nth_error (s_sout s) (N.to_nat k) with
     | None => None
     | Some (_, d) =>
         if nmem k (s_sseen s) then Some s else
